@@ -25,7 +25,7 @@ theorem flush_false_no_expunge (close : Bool) (sid : StateId) (snap : Snap) (res
   rcases hm with ⟨_, rfl⟩ | ⟨_, hm⟩
   · simp
   have hpop : ∀ r ∈ (popResponders false res).1, r.isExpunge = false := by
-    simpa [popResponders] using popAux_fst_no_expunge [] res
+    simpa [popResponders] using popAux_fst_no_expunge [] [] res
   exact merge_noexp _ out (handleAll_out_noexp close sid snap _ hpop) hm
 
 /-- **Every removal stays queued until a flush that permits it** — a
@@ -33,7 +33,7 @@ theorem flush_false_no_expunge (close : Bool) (sid : StateId) (snap : Snap) (res
 theorem flush_false_retains_expunges (close : Bool) (sid : StateId) (snap : Snap) (res : List Responder) :
     (flush false close sid snap res).rem.filter (·.isExpunge) = res.filter (·.isExpunge) := by
   rw [flush_rem]
-  simpa [popResponders] using popAux_snd_expunges [] res
+  simpa [popResponders] using popAux_snd_expunges [] [] res
 
 /-- **The next command that permits it announces every removal** — a
     `permitExpunge = true` flush pops the whole queue (nothing is retained, so no
@@ -50,49 +50,77 @@ theorem expungeIssued_iff (close : Bool) (sid : StateId) (snap : Snap) (res : Li
   simp only [expungeIssued]
   exact any_eq_of_filter_eq h
 
-/-- **Queue order is preserved** — what a flush pops and what it retains are both
-    subsequences of the queue (no responder is reordered, duplicated or invented). -/
+/-- **Queue order is preserved** — what a flush pops is a subsequence of the queue, verbatim; what
+    it retains is a subsequence of the queue in which a retained flag change has lost its `.SILENT`
+    mark (`Responder.unsilent`: it will be applied after the command that asked for silence, so it
+    has to be announced).  No responder is reordered, duplicated or invented. -/
 theorem pop_preserves_order (permit : Bool) (res : List Responder) :
-    (popResponders permit res).1.Sublist res ∧ (popResponders permit res).2.Sublist res := by
+    (popResponders permit res).1.Sublist res ∧
+    (popResponders permit res).2.Sublist (res.map Responder.unsilent) := by
   cases permit
-  · exact ⟨popAux_fst_sublist [] res, popAux_snd_sublist [] res⟩
+  · exact ⟨popAux_fst_sublist [] [] res, popAux_snd_sublist [] [] res⟩
   · simp [popResponders]
 
 /-- **A re-add is held back behind its removal (queue level)** — if the queue is
-    `a ++ [expunge id] ++ b ++ [exists id …] ++ c` and `b` holds no other `exists id`, a
-    `permitExpunge = false` pop retains that `exists`, after the `expunge`, in queue order:
-    the retained queue is `a' ++ [expunge id] ++ b' ++ [exists id …] ++ c'` with `a' b' c'` the
-    retained parts of `a b c`. -/
+    `a ++ [expunge id] ++ b ++ [exists id …] ++ c` (whatever `b` holds), a `permitExpunge = false`
+    pop retains that `exists`, after the `expunge`, in queue order: the retained queue is
+    `a' ++ [expunge id] ++ b' ++ [exists id …] ++ c'` with `a' b' c'` the retained parts of `a b c`. -/
 theorem readd_retained (a b c : List Responder) (id : MsgId) (uid : UID) (fl : Flags) (t : StateId)
-    (o : Option StateId) (hb : ∀ r ∈ b, ¬ (r.isExists = true ∧ r.msgId = id)) :
-    ∃ a' b' c', a'.Sublist a ∧ b'.Sublist b ∧ c'.Sublist c ∧
+    (o : Option StateId) :
+    ∃ a' b' c', a'.Sublist (a.map Responder.unsilent) ∧ b'.Sublist (b.map Responder.unsilent) ∧
+      c'.Sublist (c.map Responder.unsilent) ∧
       (popResponders false (a ++ [.expunge id] ++ b ++ [.exists id uid fl t o] ++ c)).2
         = a' ++ [.expunge id] ++ b' ++ [.exists id uid fl t o] ++ c' := by
   simp only [popResponders, Bool.false_eq_true, if_false]
   rw [List.append_assoc, List.append_assoc, List.append_assoc, popAux_append]
   simp only [List.singleton_append]
-  -- after `a`, the expunge puts `id` into the skip set
-  generalize hsa : skipAfter [] a = sa
-  have hexp : popAux sa (.expunge id :: (b ++ .exists id uid fl t o :: c)) =
-      ((popAux (if sa.contains id then sa else id :: sa) (b ++ .exists id uid fl t o :: c)).1,
-       .expunge id :: (popAux (if sa.contains id then sa else id :: sa) (b ++ .exists id uid fl t o :: c)).2) := by
-    simp [popAux]
-  rw [hexp, popAux_append]
-  generalize hsk : (if sa.contains id then sa else id :: sa) = sk
-  have hid : id ∈ sk := by
-    subst hsk
-    split
-    · next h => simpa using h
-    · exact List.mem_cons_self
-  have hmem : id ∈ skipAfter sk b := skipAfter_mem sk b id hid hb
-  have hex : popAux (skipAfter sk b) (.exists id uid fl t o :: c) =
-      ((popAux ((skipAfter sk b).filter (· != id)) c).1,
-       .exists id uid fl t o :: (popAux ((skipAfter sk b).filter (· != id)) c).2) := by
-    simp [popAux, hmem]
-  rw [hex]
-  refine ⟨(popAux [] a).2, (popAux sk b).2, (popAux ((skipAfter sk b).filter (· != id)) c).2,
-    popAux_snd_sublist _ _, popAux_snd_sublist _ _, popAux_snd_sublist _ _, ?_⟩
+  generalize hexpAfter [] a = e1
+  generalize hexAfter [] [] a = x1
+  rw [popAux_expunge, popAux_append]
+  have hmem : id ∈ hexpAfter (id :: e1) b := hexpAfter_mem _ b id List.mem_cons_self
+  generalize hexpAfter (id :: e1) b = e2 at hmem
+  generalize hexAfter (id :: e1) x1 b = x2
+  rw [popAux_exists_held (holdsExists_of_mem hmem)]
+  refine ⟨(popAux [] [] a).2, (popAux (id :: e1) x1 b).2, (popAux e2 (id :: x2) c).2,
+    popAux_snd_sublist _ _ _, popAux_snd_sublist _ _ _, popAux_snd_sublist _ _ _, ?_⟩
   simp
+
+/-- **While a re-add is held back, later arrivals and its flag changes wait too (queue level)** —
+    in the queue `a ++ [expunge id] ++ b ++ [exists id …] ++ c`, a `permitExpunge = false` pop
+    retains every `exists` of `c` (it carries a higher UID: announcing it first would renumber
+    without EXPUNGE when the held one is inserted below it), retains every flag change of `id` in
+    `c` without its `.SILENT` mark (applied now it would hit the instance about to be expunged), and
+    pops from `c` only flag changes of other messages. -/
+theorem later_exists_retained (a b c : List Responder) (id : MsgId) (uid : UID) (fl : Flags) (t : StateId)
+    (o : Option StateId) :
+    let q := a ++ [.expunge id] ++ b ++ [.exists id uid fl t o] ++ c
+    (∀ r ∈ c, r.isExists = true → r ∈ (popResponders false q).2) ∧
+    (∀ r ∈ c, r.isExists = false → r.isExpunge = false → r.msgId = id →
+      r.unsilent ∈ (popResponders false q).2) ∧
+    (∃ pc, (popResponders false q).1 = (popResponders false (a ++ [.expunge id] ++ b)).1 ++ pc ∧
+      pc.Sublist c ∧ ∀ r ∈ pc, r.isExists = false ∧ r.isExpunge = false ∧ r.msgId ≠ id) := by
+  intro q
+  have hq : q = (a ++ [.expunge id] ++ b) ++ (.exists id uid fl t o :: c) := by simp [q]
+  simp only [popResponders, Bool.false_eq_true, if_false, hq]
+  rw [popAux_append]
+  have hmem : id ∈ hexpAfter [] (a ++ [.expunge id] ++ b) := by
+    rw [hexpAfter_append, hexpAfter_append]
+    exact hexpAfter_mem _ b id (by simp [hexpAfter])
+  generalize hexpAfter [] (a ++ [.expunge id] ++ b) = e2 at hmem
+  generalize hexAfter [] [] (a ++ [.expunge id] ++ b) = x2
+  rw [popAux_exists_held (holdsExists_of_mem hmem)]
+  simp only
+  refine ⟨?_, ?_, (popAux e2 (id :: x2) c).1, rfl, popAux_fst_sublist _ _ _, ?_⟩
+  · intro r hr he
+    exact List.mem_append_right _ (List.mem_cons_of_mem _ (popAux_snd_exists e2 (id :: x2) c (List.cons_ne_nil _ _) r hr he))
+  · intro r hr he hd hi
+    exact List.mem_append_right _ (List.mem_cons_of_mem _
+      (popAux_snd_fetch e2 (id :: x2) c id List.mem_cons_self r hr he hd hi))
+  · intro r hr
+    refine ⟨popAux_fst_no_exists e2 (id :: x2) c (List.cons_ne_nil _ _) r hr,
+      popAux_fst_no_expunge e2 (id :: x2) c r hr, ?_⟩
+    intro h
+    exact popAux_fst_not_held e2 (id :: x2) c r hr (h ▸ List.mem_cons_self)
 
 /-- **A message known to the client is never re-announced before its removal (client
     level)** — a `permitExpunge = false` flush keeps every message instance of the
@@ -104,8 +132,8 @@ theorem flush_false_keeps_known_instances (close : Bool) (sid : StateId) (snap :
     (∀ m ∈ snap, ∃ m' ∈ (flush false close sid snap res).snap, m'.id = m.id ∧ m'.uid = m.uid) ∧
     (∀ m' ∈ (flush false close sid snap res).snap, snap.has m'.id = true →
         ∃ m ∈ snap, m.id = m'.id ∧ m.uid = m'.uid) := by
-  have hpop := popAux_fst_no_expunge [] res
-  have key : (flush false close sid snap res).snap = (handleAll close sid snap (popAux [] res).1).1 := by
+  have hpop := popAux_fst_no_expunge [] [] res
+  have key : (flush false close sid snap res).snap = (handleAll close sid snap (popAux [] [] res).1).1 := by
     rw [flush_snap]; simp [popResponders]
   rw [key]
   constructor
@@ -141,6 +169,16 @@ example :
     (flush false false 1 [Snap.mkMsg 1 1 [], Snap.mkMsg 2 2 []]
       [.expunge 1, .exists 1 5 [] 2 none, .fetch 2 ["\\seen"] .add false false false]).result
       = .ok [.fetch 2 (some ["\\seen"]) none] := by decide
+
+/-- while the re-add of message 1 is held back, the later EXISTS of message 3 and the `.SILENT` flag
+    change of message 1 wait too (the latter un-silenced); the flag change of message 2 goes out -/
+example :
+    let f := flush false false 1 [Snap.mkMsg 1 1 [], Snap.mkMsg 2 2 []]
+      [.expunge 1, .exists 1 5 [] 2 none, .exists 3 6 [] 2 none, .fetch 1 ["\\seen"] .add false true false,
+       .fetch 2 ["\\seen"] .add false false false]
+    f.result = .ok [.fetch 2 (some ["\\seen"]) none] ∧
+    f.rem = [.expunge 1, .exists 1 5 [] 2 none, .exists 3 6 [] 2 none, .fetch 1 ["\\seen"] .add false false false] := by
+  decide
 
 example :
     (flush true false 1 [Snap.mkMsg 1 1 [], Snap.mkMsg 2 2 []]
